@@ -641,7 +641,7 @@ func ParamFieldIDs() map[uint32]string {
 // 16-bit arithmetic wrap at these sizes.
 func BigCases(g G) []TCase {
 	var out []TCase
-	for _, n := range []int{16382, 16383, 16384, 20000, 65000} {
+	for _, n := range []int{16382, 16383, 16384, 20000, 32767, 32768, 49151, 65000, 65535} {
 		t := &model.T0x0805{RespondSerialNumber: g.U16(), Result: g.U8(), MultimediaIDNumber: uint16(n)}
 		for i := 0; i < n; i++ {
 			t.MultimediaIDList = append(t.MultimediaIDList, g.U32())
